@@ -503,6 +503,31 @@ def make_arrays(maxlen=3):
                                                  for j in range(ln)]),
                           dom=(lambda k, ln=ln: (k.v("i") >= 0) & (k.v("i") < ln)),
                           tags={"arr", "write", "len=%d" % ln}))
+    # several accesses to one array in one run (memo tables keyed by the index *value* or by the index *wires* only):
+    # two index wires that may hold the same value; two affine functions of one index wire; a write between two reads
+    def sel(k, cells, ix):
+        acc = 0
+        for j in range(len(cells)):
+            acc = acc + (ix == j) * cells[j]
+        return acc
+    cells3 = lambda k: [k.v("a%d" % j) for j in range(3)]
+    ents.append(Entry("arr_read_two_indices_s3", lambda k: (lambda A, i, j: [A[i], A[j]])(_arr(k, 3), k.S("i"), k.S("j")),
+                      ("a0", "a1", "a2", "i", "j"), ref=lambda k: [sel(k, cells3(k), k.v("i")), sel(k, cells3(k), k.v("j"))],
+                      dom=lambda k: (k.v("i") >= 0) & (k.v("i") < 3) & (k.v("j") >= 0) & (k.v("j") < 3), tags={"arr", "read", "len=3", "multi"}))
+    ents.append(Entry("arr_read_affine_indices_s3", lambda k: (lambda A, i: [A[i + 1], A[i + 2], A[2 * i + 2]])(_arr(k, 3), k.S("i")),
+                      ("a0", "a1", "a2", "i"),
+                      ref=lambda k: [sel(k, cells3(k), k.v("i") + 1), sel(k, cells3(k), k.v("i") + 2), sel(k, cells3(k), 2 * k.v("i") + 2)],
+                      dom=lambda k: (k.v("i") >= -1) & (k.v("i") <= 0), tags={"arr", "read", "len=3", "multi"}))
+    def _rwr(k):
+        A = _arr(k, 3); i = k.S("i"); j = k.S("j"); y = k.S("y")
+        r0 = A[i]; A[j] = y
+        return [r0, A[i]] + list(A.arr)
+    def _rwr_ref(k):
+        c = cells3(k); i, j, y = k.v("i"), k.v("j"), k.v("y")
+        c2 = [c[t] + (j == t) * (y - c[t]) for t in range(3)]
+        return [sel(k, c, i), sel(k, c2, i)] + c2
+    ents.append(Entry("arr_read_write_read_s3", _rwr, ("a0", "a1", "a2", "i", "j", "y"), ref=_rwr_ref,
+                      dom=lambda k: (k.v("i") >= 0) & (k.v("i") < 3) & (k.v("j") >= 0) & (k.v("j") < 3), tags={"arr", "write", "len=3", "multi"}))
     return ents
 
 
